@@ -398,7 +398,64 @@ def extract_formatters(emit):
     emit(f"def from_prefix_implicit : List Char := {lean_str(pats[2])}")
 
 
-SECTIONS = [("versions", extract_versions), ("formatters", extract_formatters)]
+def extract_assets(emit):
+    import fmtutil.__assets as A
+
+    def rows(asset):
+        out = []
+        for k, f in asset.items():
+            if isinstance(f, A.CommonFormat):
+                out.append((k, f.alias, False, f.regex))
+            elif isinstance(f, A.CombineFormat):
+                out.append((k, f.alias, True, f.cregex))
+            else:
+                raise ExtractError(f"asset entry {k}: unknown format type")
+            if not callable(f.fmt):
+                raise ExtractError(f"asset entry {k}: no renderer")
+        return out
+
+    row = lambda r: f"({lean_str(r[0])}, {lean_str(r[1])}, {'true' if r[2] else 'false'}, {lean_str(r[3])})"  # noqa: E731
+    emit("def asset_serial_rows : List (List Char × List Char × Bool × List Char) := " + lean_list(rows(A.Serial.asset), row))
+    emit(f"def asset_serial_default_fmt : List Char := {lean_str(A.Serial.config.default_fmt)}")
+    emit(f"def asset_serial_max_padding : Nat := {int(A.SERIAL_MAX_PADDING)}")
+    emit(f"def asset_serial_max_binary : Nat := {int(A.SERIAL_MAX_BINARY)}")
+    emit("def asset_datetime_rows : List (List Char × List Char × Bool × List Char) := " + lean_list(rows(A.Datetime.asset), row))
+    emit(f"def asset_datetime_default_fmt : List Char := {lean_str(A.Datetime.config.default_fmt)}")
+    # the default year of the asset Datetime, by probing
+    emit(f"def asset_datetime_default_year : Nat := {A.Datetime().year}")
+    tree = module_ast(A)
+    fn = find_func(tree, "parse", "Formatter")
+    pats = [p for m, p in re_call_patterns(fn) if m == "search"]
+    if len(pats) != 1 or pats[0].count("\x00") != 1:
+        raise ExtractError("asset Formatter.parse: anchored search not found")
+    a, _, b = pats[0].partition("\x00")
+    emit(f"def asset_anchor_pre : List Char := {lean_str(a)}")
+    emit(f"def asset_anchor_post : List Char := {lean_str(b)}")
+    # the asset engine repeats the classic tokenisers: they must be the same texts
+    fn = find_func(tree, "gen_format", "Formatter")
+    pats = [p for m, p in re_call_patterns(fn) if m == "finditer"]
+    emit(f"def asset_gen_format_token_re : List Char := {lean_str(pats[0])}")
+    emit(f"def asset_gen_format_inner_re : List Char := {lean_str(pats[1])}")
+
+
+def extract_probes(emit):
+    """extensional facts about aliasing of constant classes (C15): does a later change of the
+    source mapping, or of the dictionary values() hands out, reach the class?"""
+    import fmtutil.formatter as F
+
+    m = {"%n": "abc", "%d": "dev"}
+    C = F.dict2const(m, "ProbeConst")
+    before = C.parse("abc", "%n").format("%n")
+    m["%n"] = "xyz"
+    after_src = C.parse("abc", "%n").format("%n")
+    d = C.parse("abc", "%n").values()
+    d["%n"] = "q"
+    after_vals = C.parse("abc", "%n").format("%n")
+    emit(f"def const_aliases_source : Bool := {'true' if after_src != before else 'false'}")
+    emit(f"def const_values_aliases : Bool := {'true' if after_vals != before else 'false'}")
+
+
+SECTIONS = [("versions", extract_versions), ("formatters", extract_formatters), ("assets", extract_assets), ("probes", extract_probes)]
 
 
 def generate() -> str:
